@@ -152,6 +152,7 @@ extern "C" int harness_main() {
   VERIF_ASSERT(m.rc == 0 || (tool == T_MISSINGDEPS && m.rc == 3), "C19: the tool succeeds");
   verif_obs(m.rc); verif_obs((long)L.size());
   // ---- what the tool prints is true
+  bool missing_validation_command = false;
   std::vector<int> need; std::vector<std::string> seen; input_closure(target, &need, &seen);
   if (tool == T_COMMANDS) {
     // every command a from-scratch build of the target has to run for the target itself, once, producers before consumers
@@ -164,7 +165,7 @@ extern "C" int harness_main() {
     // ... including the validations a real build adds
     bool has_validation = false; std::vector<std::string> cl; closure(target, &cl);
     for (size_t i = 0; i < cl.size(); i++) { const RefEdge* e = ref_producer(cl[i]); if (e && !e->phony && index_of(L, plain_command(*e)) < 0) has_validation = true; }
-    VERIF_ASSERT(!has_validation, "C19: -t commands also lists the commands of the validations a real build of the target runs");
+    missing_validation_command = has_validation;      // asserted at the very end, so that the rest of this path is still checked
     verif_reach("commands");
   } else if (tool == T_COMMANDS_S) {
     const RefEdge* e = ref_producer(target); VERIF_ASSERT(e && (e->phony ? L.empty() : (L.size() == 1 && L[0] == plain_command(*e))), "C19: -t commands -s prints just the command of the target");
@@ -217,6 +218,7 @@ extern "C" int harness_main() {
     assert_clean_equal(targets, "C19: ... and brings the target up to date");
     for (size_t i = 0; i < r.started.size(); i++) verif_obs(r.started[i]); }
   verif_reach(read_only ? "read-only-tool" : "log-tool");
+  VERIF_ASSERT(!missing_validation_command, "C19: -t commands also lists the commands of the validations a real build of the target runs");
   return 0;
 #endif
 }
